@@ -140,9 +140,30 @@ def merge_stats(a, b):
     return a
 
 
+# numpy keeps its floating-point error handling (np.seterr / np.seterrcall) per thread context.  The library configures it when it is imported - in the
+# importing thread.  multiprocessing replaces worn-out pool workers by forking from its own helper thread, whose context has numpy's DEFAULTS, so such
+# workers would run the library in a mode no user ever sees.  The state found in the main thread after importing the check module (i.e. after the
+# library's own np.seterr calls, re-read from /repo on every run) is therefore re-established at the start of every job.
+_NP_ERRSTATE = [None]
+
+
+def _capture_np_errstate():
+    import numpy as np
+    _NP_ERRSTATE[0] = (dict(np.geterr()), np.geterrcall())
+
+
+def _restore_np_errstate():
+    import numpy as np
+    if _NP_ERRSTATE[0] is not None:
+        st, cb = _NP_ERRSTATE[0]
+        np.seterrcall(cb)
+        np.seterr(**st)
+
+
 def explore_job(args):
     modname, tier, hname, roots, max_paths, max_s, seed, validate_every = args
     try:
+        _restore_np_errstate()
         h = _harness(modname, tier, hname)
         return _explore(h, roots, max_paths, max_s, seed, validate_every)
     except BaseException:   # noqa
@@ -398,6 +419,7 @@ def run_harnesses(modname, tier, hs, deadline_s, seed, slice_s=6.0, slice_paths=
         budget[h.name] = h.max_paths or 10 ** 9
         queue.append((h.name, [[]]))
     t0 = time.time()
+    _capture_np_errstate()
     ctx = mp.get_context('fork')
     pool = ctx.Pool(NCPU, maxtasksperchild=200)
     pending = []
